@@ -66,6 +66,7 @@ type Exec struct {
 	retSites int
 	iterMap map[*ssa.Range]Val
 	requiresPrefix int
+	curPassed []string
 	curLits map[string]string
 	noFacts bool
 	typeArgFn *ssa.Function
